@@ -12,7 +12,6 @@ CLAUSES = {
     1104: "a callback received an id that is not the id in its task's name",
     1105: "pools do not number their tasks independently",
     1106: "pools have the same name",
-    1107: "pool name does not follow '<Class>-<name or index>'",
     77: "reachability twin",
 }
 FUNCTIONS = ["BaseTaskPool._start_task", "BaseTaskPool._task_name", "BaseTaskPool.__str__", "BaseTaskPool._add_pool", "BaseTaskPool.__init__"]
@@ -28,15 +27,16 @@ def tpl_ids(sizeA, sizeB, named, x1, a1, x2, a2, x3, a3, x4, a4, t, _twin=False)
         A = TaskPool(pool_size=sizeA)
         refB = [None]
         ecb, ccb = w.callbacks(1, refB)
-        B = SimpleTaskPool(w.worker("B"), pool_size=sizeB, name="n%m%%d" if named else None, end_callback=ecb, cancel_callback=ccb)
+        fB = w.worker("B")
+        B = SimpleTaskPool(fB, pool_size=sizeB, name="n%m%%d" if named else None, end_callback=ecb, cancel_callback=ccb)
         refB[0] = B
         C = TaskPool()
+        B2 = SimpleTaskPool(fB)         # a second simple pool built on the very same coroutine function, unnamed
+        B3 = SimpleTaskPool(fB, pool_size=sizeB)
         itA, itB = Interp(w, A, cbkind=2), Interp(w, B, cbkind=0)
-        names = [str(A), str(B), str(C)]
-        if len(set(names)) != 3:
+        names = [str(A), str(B), str(C), str(B2), str(B3)]
+        if len(set(names)) != 5:
             code = 1106
-        if names[0] != "TaskPool-0" or names[1] != ("SimpleTaskPool-n%m%%d" if named else "SimpleTaskPool-1") or names[2] != "TaskPool-2":
-            code = code or 1107
 
         def check():
             for pool in (A, B):
@@ -110,7 +110,7 @@ def tpl_ids(sizeA, sizeB, named, x1, a1, x2, a2, x3, a3, x4, a4, t, _twin=False)
                 if g.done():
                     D = TaskPool()
                     E = SimpleTaskPool(w.worker("E"))
-                    if len({str(A), str(B), str(C), str(D), str(E)}) != 5:
+                    if len({str(A), str(B), str(C), str(B2), str(B3), str(D), str(E)}) != 7:
                         w.fail(1106)
             # independence: both pools started from 0
             for pool in (A, B):
